@@ -293,3 +293,8 @@ _EXTRA2 = {
 }
 for _p, _x in _EXTRA2.items():
     TEXTS[_p]['text'] = TEXTS[_p]['text'] + _x
+
+TEXTS['C13']['text'] = TEXTS['C13']['text'] + (" For runs of the bucket model itself under the stream discipline (Disc: clock readings do not go back, a refused stream "
+    "asks again for the same amount no earlier than it was told) the bytes granted to reads that waited are at most max x T (waited_bytes_le: an "
+    "invariant carrying the virtual finish times of a FIFO server as ghost state) and all bytes at most (1/alpha + 1) x max x T (total_bytes_le) "
+    "— the guarantee the code does give in place of the statement's single 1.25 bound.")
